@@ -270,6 +270,7 @@ def _model_vals(m, v):
 
 
 def run_instance(p):
+    st.core.FLOOR_LEMMAS = True
     res = InstanceResult(p['id'])
     tier = p.get('tier', 'quick')
     self_t = p.get('selftest', False)
